@@ -394,13 +394,22 @@ Proof.
   apply (Rep_extend s s2 d HR Hinv2); [congruence|]. intros o tr H. rewrite A. apply Hcp. exact H.
 Qed.
 
-Lemma st_create_table_rep s d n fds s' :
+Lemma names_distinct_NoDup l : names_distinct l = true -> NoDup l.
+Proof.
+  induction l as [|a r IH]; intros H; [constructor|]. cbn [names_distinct] in H.
+  apply andb_true_iff in H as [A B]. constructor; [|auto].
+  intros Hin. apply negb_true_iff in A. assert (X : existsb (String.eqb a) r = true).
+  { apply existsb_exists. exists a. split; [exact Hin | apply String.eqb_refl]. }
+  congruence.
+Qed.
+
+Lemma st_create_table0_rep s d n fds s' :
   Rep s d -> is_sys n = false -> NoDup (names fds) -> nextFree s' <= OFFMAX ->
-  st_create_table s n fds = (s', Ok tt) ->
+  st_create_table0 s n fds = (s', Ok tt) ->
   find_tbl n d = None /\ Rep s' (d ++ [mkTbl n fds []]).
 Proof.
   intros HR Hsys Hnd Hmax Hrun. pose proof HR as [Hinv Hok (pt & sc & ents & osc & HC)].
-  unfold st_create_table in Hrun.
+  unfold st_create_table0 in Hrun.
   destruct (find_tbl n d) as [t|] eqn:Hf.
   { exfalso. destruct (find_tbl_In _ _ _ Hf) as [Hin Hn].
     destruct (c_tabs _ _ _ _ _ _ HC t Hin) as (o & tr & He & _). rewrite Hn in He.
@@ -422,4 +431,15 @@ Proof.
   unfold schemaTableName in Hrun. rewrite Eosc in Hrun. cbn [bind] in Hrun.
   unfold get_tree in Hrun. rewrite (c_sc _ _ _ _ _ _ HC2) in Hrun. cbn [bind] in Hrun.
   exact (insert_schema_rows_rep n fds s2 d [] osc2 s' HR2 Eosc Hnd Hmax Hrun).
+Qed.
+
+(* a successful CREATE TABLE has pairwise distinct column names: the code refuses the others *)
+Lemma st_create_table_rep s d n fds s' :
+  Rep s d -> is_sys n = false -> nextFree s' <= OFFMAX ->
+  st_create_table s n fds = (s', Ok tt) ->
+  names_distinct (names fds) = true /\ find_tbl n d = None /\ Rep s' (d ++ [mkTbl n fds []]).
+Proof.
+  intros HR Hsys Hmax Hrun. unfold st_create_table in Hrun. fold (names fds) in Hrun.
+  destruct (names_distinct (names fds)) eqn:Hd; [|inversion Hrun].
+  split; [reflexivity|]. eapply st_create_table0_rep; eauto. apply names_distinct_NoDup. exact Hd.
 Qed.
